@@ -18,8 +18,8 @@ open SqVerif.Adjacency
      unrecog       line 439  yield self.apply_two_qubit_gate(gate=cnot_gate, qubit_id1=qubit_id, qu
      unrecog       line 447  ent_id = self.new_ent_id(epr_socket_id=epr_socket_id, remote_node_id=r
      unrecog       line 452  if create_request.type == RequestType.K:
-     unrecog       line 514  self._handle_epr_response(response=ent_info)
-     other         line 515  self._logger.debug('finished cmd_epr')
+     unrecog       line 517  self._handle_epr_response(response=ent_info)
+     other         line 518  self._logger.debug('finished cmd_epr')
 -/
 def cmdEprStmts : List Stmt := [
   .guardUnknown, .other, .guardSelf, .guardAdjacent, .other, .cmdNew,
